@@ -195,7 +195,7 @@ func runC02(r *core.Run) (bool, string) {
 	frng := core.NewRng(r.Seed, "c02-families")
 	fam := gen.FamilyAtoms("C02", r.Quick(), frng.Intn)
 	if devRound9 {
-		fam = gen.Round9Families()
+		fam = append(gen.Round9Families(), gen.Round10Families()...)
 	}
 	for _, a := range fam {
 		pkgs = append(pkgs, gen.OutsidePackage(a))
